@@ -22,6 +22,7 @@ type Golden struct {
 	Unstable []string          `json:"unstable,omitempty"` // keys on which the two processes disagree
 	Panics   bool              `json:"panics,omitempty"`   // some call let a panic escape
 	Failed   string            `json:"failed,omitempty"`   // the reference process crashed or timed out
+	Input    *Project          `json:"input,omitempty"`    // kept only when Failed, for the record
 }
 
 // goldenScript runs the canonical script in this process (golden subcommand).
@@ -155,6 +156,9 @@ func (g *goldenStore) Get(p *Project) *Golden {
 				}
 			}
 		}
+	}
+	if r.Failed != "" {
+		r.Input = p
 	}
 	b, _ := json.Marshal(r)
 	tmp := file + "." + strconv.Itoa(os.Getpid()) + ".tmp"
